@@ -88,9 +88,19 @@ class Ctx:
             tree = ast.parse(self.read(rel), filename=rel)
         except SyntaxError as e:
             raise AnalysisError(f"{rel} does not parse: {e}")
+        from . import normast
         if os.environ.get("FV_CANON", "1") != "0":
-            from . import normast
             normast.canon_module(tree)
+        if rel.startswith("py/formak/") and rel.endswith(".py"):
+            name = rel[len("py/formak/"):-3].replace("/", ".")
+            normast.SIBLINGS[name] = tree
+            if name == "common":
+                pass
+            elif "common" not in normast.SIBLINGS and rel != "py/formak/common.py":
+                try:
+                    self.parse("py/formak/common.py")       # the usual home of shared helpers
+                except AnalysisError:
+                    pass
         return tree
 
     # ---- recording
@@ -235,6 +245,18 @@ def find_class(mod: ast.Module, name) -> Optional[ast.ClassDef]:
     return None
 
 
+def own_walk(fn):
+    """nodes of fn's own scope: nested function / lambda / class bodies are not entered (their returns / yields are not fn's)"""
+    import ast as _ast
+    stack = list(reversed(fn.body)) if hasattr(fn, "body") and isinstance(fn.body, list) else [fn]
+    while stack:
+        n = stack.pop()
+        yield n
+        if isinstance(n, (_ast.FunctionDef, _ast.AsyncFunctionDef, _ast.Lambda, _ast.ClassDef)):
+            continue
+        stack.extend(reversed(list(_ast.iter_child_nodes(n))))
+
+
 def find_func(scope, name) -> Optional[ast.FunctionDef]:
     for n in scope.body:
         if isinstance(n, (ast.FunctionDef, ast.AsyncFunctionDef)) and n.name == name:
@@ -257,6 +279,25 @@ def bind_call(call: ast.Call, fn, skip_first=False):
             return None
         out[k.arg] = k.value
     return out
+
+
+def find_func_imported(ctx, mod: ast.Module, name: str):
+    """the module-level function `name` of `mod`, or -- when `mod` only imports it (`from formak.X import name [as name]`) -- the definition in
+    that sibling module.  -> (FunctionDef | None, repo-relative file of the definition | None)"""
+    fn = find_func(mod, name)
+    if fn is not None:
+        return fn, None
+    for n in mod.body:
+        if isinstance(n, ast.ImportFrom) and n.module and n.module.split(".")[0] == "formak" and len(n.module.split(".")) > 1:
+            for a in n.names:
+                if (a.asname or a.name) == name:
+                    rel = "py/formak/" + "/".join(n.module.split(".")[1:]) + ".py"
+                    try:
+                        other = ctx.parse(rel)
+                    except AnalysisError:
+                        return None, None
+                    return find_func(other, a.name), rel
+    return None, None
 
 
 def need(x, what):
